@@ -4,7 +4,7 @@
 package sync
 
 // ---- fail-stop (C14): the halted flag is cleared only when the reorg really removed processed blocks
-//@ func UnhaltIfAffectedRows
+//@ func UnhaltIfAffectedRows (halted, haltedReason, mu, rowsAffected)
 //@   props C14
 //@   inline
 //@   requires halted != nil && haltedReason != nil && mu != nil
@@ -34,14 +34,14 @@ package sync
 //@   ensures result1 == nil ==> forall(j, 0, len(result0), forall(k, j, len(result0), result0[j].BlockNumber <= result0[k].BlockNumber))
 //@   ensures result1 == nil ==> forall(j, 0, len(result0), forall(k, 0, len(result0), result0[j].BlockNumber == result0[k].BlockNumber ==> result0[j].BlockHash == result0[k].BlockHash))
 
-//@ func (h *RetryHandler) Handle
+//@ func (h *RetryHandler) Handle (h, funcName, attempts)
 //@   trusted
 //@   modifies nothing
 
 //@ extern slices.Contains[[]github.com/ethereum/go-ethereum/common.Hash github.com/ethereum/go-ethereum/common.Hash] (s, v)
 //@   modifies nothing
 
-//@ func (d *EVMDownloaderImplementation) GetLogs
+//@ func (d *EVMDownloaderImplementation) GetLogs (d, ctx, fromBlock, toBlock)
 //@   props C05
 //@   requires d != nil && d.ethClient != nil && d.log != nil && d.rh != nil
 //@   modifies qFrom, qTo, okQueries, lastQueryErrCancelled
@@ -97,7 +97,7 @@ package sync
 //@   ensures !result1 ==> result0.Num == blockNum
 //@   ensures cancelSeen == (old(cancelSeen) || result1)
 
-//@ func (d *EVMDownloader) reportBlocks
+//@ func (d *EVMDownloader) reportBlocks (d, downloadedCh, blocks, lastFinalizedBlock)
 //@   props C05
 //@   requires d != nil && d.log != nil
 //@   requires forall(k, 0, len(blocks), blocks[k] != nil)
@@ -112,7 +112,7 @@ package sync
 //@   ensures[reported-blocks-are-covered] coveredTo == ite(len(blocks) > 0 && blocks[len(blocks) - 1].Num > old(coveredTo), blocks[len(blocks) - 1].Num, old(coveredTo))
 //@   loop 0 invariant d != nil && d.log != nil && forall(k, 0, len(blocks), blocks[k] != nil)
 
-//@ func (d *EVMDownloader) reportEmptyBlock
+//@ func (d *EVMDownloader) reportEmptyBlock (d, ctx, downloadedCh, blockNum, lastFinalizedBlock)
 //@   props C05
 //@   requires d != nil && d.log != nil && d.EVMDownloaderInterface != nil
 //@   requires[marker-only-after-the-scan] blockNum < scanNext
@@ -124,7 +124,7 @@ package sync
 //@   ensures[marker-covers-its-block-unless-cancelled] cancelSeen || coveredTo >= blockNum
 //@   ensures[covered-never-shrinks] coveredTo >= old(coveredTo)
 
-//@ func (d *EVMDownloader) Download
+//@ func (d *EVMDownloader) Download (d, ctx, fromBlock, downloadedCh)
 //@   props C05
 //@   requires d != nil && d.log != nil && d.EVMDownloaderInterface != nil
 //@   requires scanNext == fromBlock && !scanGap && fromBlock < 9223372036854775808 && d.syncBlockChunkSize < 4294967296
@@ -173,7 +173,7 @@ package sync
 //@   ensures result == nil ==> reorgedOK == old(reorgedOK) + 1 && lastReorgFrom == firstReorgedBlock
 //@   ensures result != nil ==> reorgedOK == old(reorgedOK) && lastReorgFrom == old(lastReorgFrom)
 
-//@ func (d *EVMDriver) handleNewBlock
+//@ func (d *EVMDriver) handleNewBlock (d, ctx, cancel, b)
 //@   props C05 C06
 //@   requires d != nil && d.log != nil && d.rh != nil && d.reorgDetector != nil && d.processor != nil
 //@   modifies trackedNum, trackOKCount, processedOK, lastProcessedNum, storeLast
@@ -182,7 +182,7 @@ package sync
 //@   loop 0 invariant d != nil && d.log != nil && d.rh != nil && d.reorgDetector != nil && d.processor != nil && processedOK == old(processedOK) && trackOKCount == old(trackOKCount) && !succeed
 //@   loop 1 invariant d != nil && d.log != nil && d.rh != nil && d.processor != nil && (b.IsFinalizedBlock || (trackOKCount > old(trackOKCount) && trackedNum == b.Num)) && !succeed && processedOK == old(processedOK)
 
-//@ func (d *EVMDriver) handleReorg
+//@ func (d *EVMDriver) handleReorg (d, ctx, cancel, firstReorgedBlock)
 //@   props C06
 //@   requires d != nil && d.log != nil && d.rh != nil && d.processor != nil && d.reorgSub != nil
 //@   modifies region("chan:bool.sent"), region("chan:bool.nsent"), reorgedOK, lastReorgFrom, storeLast
@@ -199,7 +199,7 @@ package sync
 //@   ensures result1 == nil ==> result0 == storeLast
 //@ interface github.com/agglayer/aggkit/db/compatibility.CompatibilityChecker.Check (self, ctx, tx)
 //@   modifies nothing
-//@ func (d *EVMDriver) Sync
+//@ func (d *EVMDriver) Sync (d, ctx)
 //@   props C06 C05
 //@   requires d != nil && d.log != nil && d.rh != nil && d.processor != nil && d.reorgDetector != nil && d.downloader != nil && d.reorgSub != nil && d.compatibilityChecker != nil
 //@   modifies heap, storeLast, trackedNum, trackOKCount, processedOK, lastProcessedNum, reorgedOK, lastReorgFrom
@@ -225,7 +225,7 @@ package sync
 //@   modifies hdrLastErrCanceled
 //@   ensures result1 != nil ==> result0 == nil && hdrLastErrCanceled == isErr(result1, context.Canceled)
 //@   ensures result1 == nil ==> result0 != nil && result0.Number != nil && bigval(result0.Number) == bigval(number) && hdrLastErrCanceled == old(hdrLastErrCanceled)
-//@ func (d *EVMDownloaderImplementation) GetBlockHeader
+//@ func (d *EVMDownloaderImplementation) GetBlockHeader (d, ctx, blockNum)
 //@   props C05
 //@   requires d != nil && d.ethClient != nil && d.log != nil && d.rh != nil
 //@   modifies hdrCancelled, hdrLastErrCanceled
@@ -241,7 +241,7 @@ package sync
 //@   requires b != nil
 //@   modifies b.Events
 
-//@ func (d *EVMDownloaderImplementation) getEventsByBlockRangeWithRetry
+//@ func (d *EVMDownloaderImplementation) getEventsByBlockRangeWithRetry (d, ctx, fromBlock, toBlock, retryCount)
 //@   props C05
 //@   requires d != nil && d.ethClient != nil && d.log != nil && d.rh != nil && d.appender != nil
 //@   modifies heap, qFrom, qTo, okQueries, lastQueryErrCancelled, ctxEnded, hdrCancelled
@@ -270,7 +270,7 @@ package sync
 
 // waiting for the chain to advance (C05): the answer is never behind the block the caller has seen, and it is that same
 // block only when the context has ended (the download loop then stops); a failing RPC is retried
-//@ func (d *EVMDownloaderImplementation) WaitForNewBlocks
+//@ func (d *EVMDownloaderImplementation) WaitForNewBlocks (d, ctx, latestSyncedBlock)
 //@   props C05
 //@   requires d != nil && d.ethClient != nil && d.log != nil && d.rh != nil
 //@   modifies ctxEnded
@@ -289,14 +289,14 @@ package sync
 //@   modifies nothing
 //@   ensures result1 != nil ==> result0 == nil
 //@   ensures result1 == nil ==> result0 != nil && fresh(result0) && bigval(result0) == finalityTag(b.string)
-//@ func (m LogAppenderMap) GetTopics
+//@ func (m LogAppenderMap) GetTopics (m)
 //@   trusted
 //@   modifies nothing
-//@ func NewEVMDownloaderImplementation
+//@ func NewEVMDownloaderImplementation (syncerID, ethClient, blockFinality, waitForNewBlocksPeriod, appender, addressesToQuery, rh, finalizedBlockType)
 //@   props C05 C06
 //@   modifies nothing
 //@   ensures[fields-are-the-arguments] result != nil && fresh(result) && result.ethClient == ethClient && result.blockFinality == blockFinality && result.finalizedBlockType == finalizedBlockType && result.waitForNewBlocksPeriod == waitForNewBlocksPeriod && result.appender == appender && result.addressesToQuery == addressesToQuery && result.rh == rh
-//@ func NewEVMDownloader
+//@ func NewEVMDownloader (syncerID, ethClient, syncBlockChunkSize, blockFinalityType, waitForNewBlocksPeriod, appender, addressesToQuery, rh, finalizedBlockType)
 //@   props C05 C06
 //@   modifies nothing
 //@   ensures[error-means-nothing] result1 != nil ==> result0 == nil
